@@ -11,7 +11,10 @@ var Registry = map[string]func(Tier) int{
 	"C09": C09,
 	"C10": C10,
 	"C07": C07,
+	"C12": C12,
+	"C14": C14,
 	"C15": C15,
+	"C20": C20,
 }
 
 // Replay re-executes a replay file without the explorer.
